@@ -98,6 +98,24 @@ func genForFamily(prop string, rng *rand.Rand, family string) *sim.Scenario {
 		}
 		n = len(s.Steps)
 	}
+	// disableGenerateCanaryService: no separate canary Service, the routes of the step point to the stable Service itself
+	if s.HasTraffic() && (prop == "C05" || prop == "C04" || prop == "C03" || prop == "C07" || prop == "C09" || prop == "C18" || prop == "C10") && rng.Intn(12) == 0 {
+		s.NoCanarySvc = true
+	}
+	// traffic configured in a TrafficRouting custom resource instead of in the Rollout
+	if s.HasTraffic() && s.Style != "bluegreen" && (prop == "C18" || prop == "C05" || prop == "C07" || prop == "C09" || prop == "C06" || prop == "C19") && rng.Intn(8) == 0 {
+		s.TRCR, s.TRWeight = true, 5+rng.Intn(90)
+		for i := range s.Steps {
+			s.Steps[i].Traffic, s.Steps[i].Match = -1, ""
+		}
+		switch rng.Intn(4) {
+		case 0:
+			add("delete-tr")
+		case 1:
+			add([]string{"delete", "disable", "rollback"}[rng.Intn(3)])
+		}
+		return s
+	}
 	// rollback in batches: the plan is walked a second time towards the old revision (CloneSet, no traffic routing)
 	if s.Kind == "cloneset" && s.Style == "partition" && (prop == "C02" || prop == "C01" || prop == "C11" || prop == "C05" || prop == "C07" || prop == "C06" || prop == "C19") && rng.Intn(8) == 0 {
 		s.RollbackInBatch = true
